@@ -442,6 +442,12 @@ func nativeReplay(r Run, replayPath string, p *sym.Program) (bool, string) {
 				t.Fail()
 			}
 		}()
+		defer func() {
+			for _, f := range vFailures {
+				fmt.Printf("REPLAY-FAIL: %s\n", f)
+			}
+			vFailures = nil
+		}()
 		h()
 	}
 `
